@@ -495,7 +495,7 @@ def classify(case, impl, model, oracle):
 
 THEOREMS = ["c11_sign_digest_eq", "c11_sign", "c11_read", "c11_verify_digest_eq", "c11_verify", "c11_verify_iff",
             "c11_verify_errors", "c11_check_time_no_overflow", "c11_check_time", "c11_digest_injective",
-            "c11_tamper_rejected"]
+            "c11_tamper_rejected", "c11_try_from_total", "c11_verify_total"]
 
 CHECK = {
     "property": "C11",
